@@ -20,6 +20,7 @@ import numpy as np
 
 LD = np.longdouble
 U64 = 2.0 ** -53
+C_SVD = 16.0      # pinv() inverts through an SVD: measured forward error of the inverse ~ 10 u cond (inv: 0.2 u cond)
 
 
 def ld(a):
@@ -153,7 +154,7 @@ def ekf_err(r, sysm, x, u, P, Q, R, y):
     dxm = r["X"]
     dPm = nA * nA * nrm(P) + 2 * nA * dA * nrm(P) + nrm(Q)
     SS = nC * nC * (dPm + nPm) + 2 * nC * dC * nPm + nrm(R)   # rounding of S (PSD sums: no cancellation)
-    dK = (dPm + nPm) * nC * nSi + nPm * dC * nSi + nK * SS * nSi + nK * nS * nSi
+    dK = (dPm + nPm) * nC * nSi + nPm * dC * nSi + nK * SS * nSi + C_SVD * nK * nS * nSi
     ne = nrm(r["e"])
     de = nrm(y) + r["Y"] + nC * dxm
     dx = dxm + dK * ne + nK * de + nK * ne
@@ -191,7 +192,7 @@ def ukf_err(r, sysm, k, x, u, P, Q, R, y):
     e2y = (W + 1) * Y1 + nC * e2x
     dPy = W * E2y * (2 * e2y + E2y) + nrm(R) + nS + nC * nC * dPm
     dPxy = W * (L2 * e2y + E2y * e2x + L2 * E2y) + nC * dPm
-    dK = dPxy * nSi + nK * dPy * nSi + nK * nS * nSi
+    dK = dPxy * nSi + nK * dPy * nSi + C_SVD * nK * nS * nSi
     ne = nrm(r["e"])
     dx = dxe + dK * ne + nK * (nrm(y) + W * Y1 + nC * dxe) + nK * ne
     dP = dPm + 2 * nK * nS * dK + nK * nK * dPy + nPm + nK * nK * nS
